@@ -57,18 +57,8 @@ theorem const_rt : (c : ConstValue) → c.wf = true → c.supported = true → (
       rcases hc0 with h | h
       · rw [h] at hy; cases hy
       · exact hy' h
-    have hint : IntConstant.parse (d + 1) (intText n ++ r) = .ok n r := by
-      by_cases hneg : n < 0
-      · simp only [ConstValue.depth, hneg, if_true] at hd
-        obtain ⟨d', rfl⟩ : ∃ d', d = d' + 1 := ⟨d - 1, by omega⟩
-        exact intConstant_rt d' hw hf
-      · have hm : (n.toNat : Int) ≤ i64Max := by
-          simp only [intOk, Bool.and_eq_true, decide_eq_true_eq] at hw; omega
-        have := intConstant_nat_rt d hm hf
-        have hb : (n.toNat : Int) = n := by omega
-        simp only [intText, hneg, if_false]
-        rw [this, hb]
-    have hdbl := double_err_int (d + 1) (n := n) hf
+    have hint : IntConstant.parse (intText n ++ r) = .ok n r := intConstant_rt hw hf
+    have hdbl := double_err_int (n := n) hf
     unfold ConstValue.parse
     rw [e] at hint hdbl ⊢
     rw [alt_cons_of_err (pmap_of_err (literal_err_hd (by
@@ -99,7 +89,7 @@ theorem const_rt : (c : ConstValue) → c.wf = true → c.supported = true → (
     simp only [ConstValue.depth] at hd
     simp only [rConst, rLit_fst]
     obtain ⟨c0, x0, e, hc0⟩ := double_head hw
-    have hdr := double_rt hw hf (d := d + 1) hd
+    have hdr := double_rt hw hf
     have hq : c0 ≠ '\'' ∧ c0 ≠ '"' ∧ c0 ≠ 't' ∧ c0 ≠ 'f' ∧ isIdentStart c0 = false := by
       rcases hc0 with h | h | h | h
       · subst h; decide
@@ -139,7 +129,7 @@ theorem const_rt : (c : ConstValue) → c.wf = true → c.supported = true → (
     simp only [rConst, rSeq_fst, rSeq_snd, rLit_fst, rLit_snd, List.append_assoc]
     rw [rConstElems_slots]
     simp only [List.singleton_append]
-    obtain ⟨e1, e2, e3, e4, e5⟩ := constArms_err_bracket (d' + 1) '[' ((rB0 l).1 ++ ((rSlots rConstElem xs (rB0 l).2).1 ++ (']' :: r))) (by simp)
+    obtain ⟨e1, e2, e3, e4, e5⟩ := constArms_err_bracket '[' ((rB0 l).1 ++ ((rSlots rConstElem xs (rB0 l).2).1 ++ (']' :: r))) (by simp)
     unfold ConstValue.parse
     rw [alt_cons_of_err (pmap_of_err e1), alt_cons_of_err (e2 _ _ (Or.inl rfl)), alt_cons_of_err (e2 _ _ (Or.inr rfl)),
       alt_cons_of_err (pmap_of_err e3), alt_cons_of_err (pmap_of_err e4), alt_cons_of_err (pmap_of_err e5)]
@@ -171,7 +161,7 @@ theorem const_rt : (c : ConstValue) → c.wf = true → c.supported = true → (
       (by
         intro bl R hbl
         rw [andThen_optBlank hbl (by rw [NB, hdP_cons]; decide)]
-        obtain ⟨e1, e2, e3, e4, e5⟩ := constArms_err_bracket d' ']' R (by simp)
+        obtain ⟨e1, e2, e3, e4, e5⟩ := constArms_err_bracket ']' R (by simp)
         apply andThen_of_err
         unfold ConstValue.parse
         rw [alt_cons_of_err (pmap_of_err e1), alt_cons_of_err (e2 _ _ (Or.inl rfl)), alt_cons_of_err (e2 _ _ (Or.inr rfl)),
@@ -199,7 +189,7 @@ theorem const_rt : (c : ConstValue) → c.wf = true → c.supported = true → (
     simp only [rConst, rSeq_fst, rSeq_snd, rLit_fst, rLit_snd, List.append_assoc]
     rw [rConstPairs_slots]
     simp only [List.singleton_append]
-    obtain ⟨e1, e2, e3, e4, e5⟩ := constArms_err_bracket (d' + 1) '{' ((rB0 l).1 ++ ((rSlots rConstPair kvs (rB0 l).2).1 ++ ('}' :: r))) (by simp)
+    obtain ⟨e1, e2, e3, e4, e5⟩ := constArms_err_bracket '{' ((rB0 l).1 ++ ((rSlots rConstPair kvs (rB0 l).2).1 ++ ('}' :: r))) (by simp)
     unfold ConstValue.parse
     rw [alt_cons_of_err (pmap_of_err e1), alt_cons_of_err (e2 _ _ (Or.inl rfl)), alt_cons_of_err (e2 _ _ (Or.inr rfl)),
       alt_cons_of_err (pmap_of_err e3), alt_cons_of_err (pmap_of_err e4), alt_cons_of_err (pmap_of_err e5),
@@ -234,7 +224,7 @@ theorem const_rt : (c : ConstValue) → c.wf = true → c.supported = true → (
       (by
         intro bl R hbl
         rw [andThen_optBlank hbl (by rw [NB, hdP_cons]; decide)]
-        obtain ⟨e1, e2, e3, e4, e5⟩ := constArms_err_bracket d' '}' R (by simp)
+        obtain ⟨e1, e2, e3, e4, e5⟩ := constArms_err_bracket '}' R (by simp)
         apply andThen_of_err
         unfold ConstValue.parse
         rw [alt_cons_of_err (pmap_of_err e1), alt_cons_of_err (e2 _ _ (Or.inl rfl)), alt_cons_of_err (e2 _ _ (Or.inr rfl)),
